@@ -72,7 +72,11 @@ type vxConn struct {
 }
 
 func (c *vxConn) Prepare(q string) (driver.Stmt, error) { return &vxStmt{c: c, q: q}, nil }
-func (c *vxConn) Close() error                          { return nil }
+func (c *vxConn) Close() error {
+	// database/sql closes its connections when the DB is closed
+	c.d.call(SQLEvent{Kind: "close"})
+	return nil
+}
 func (c *vxConn) Begin() (driver.Tx, error) {
 	c.d.mu.Lock()
 	c.d.nextTx++
